@@ -661,6 +661,8 @@ class C14:
     def generate(self, seed, idx, tier):
         if idx == 0:
             return {"default_loader": True}       # one fixed case per run: the interpreter's own loader and a file that does not exist
+        if idx == 1:
+            return {"host_printer": True}         # ... and one in which the host installs its printer again mid-session
         cseed = derive(seed, "C14", idx)
         ir = gen_ir(cseed)
         rng = Rng(derive(cseed, "tape"))
@@ -700,9 +702,40 @@ try { import "no_such_module_in_the_working_directory_verif"; } catch e2 { print
                 return res
         return res
 
+    PRINTER_MODULE = """var log = [];
+fn print(x) { log.push(x); return log.len(); }
+fn say(x) { return print(x); }
+"""
+
+    def check_host_printer(self, sc, ctx):
+        """A module has a global of its own called `print`; the host installs its printer again between two snippets."""
+        stats = Stats()
+        stats.inc("host_printer_cases")
+        progs = [{"kind": "snippet", "source": 'import "pm";\nvar p = print;\np(("ev", "a", pm.say(5), pm.log.len()));\n'},
+                 {"kind": "setprinter"},
+                 {"kind": "snippet", "source": 'import "pm";\nprint(("ev", "b", pm.say(6), pm.log.len(), pm.log[1]));\n'}]
+        want = [[[s("a"), num(1), num(1)]], [], [[s("b"), num(2), num(2), num(6)]]]
+        run_sc = {"programs": progs, "fs": {"pm": {"source": self.PRINTER_MODULE, "reads": []}}, "tape": [], "faults": {}, "config": {}}
+        res = {"stats": stats, "nontrivial": False, "key": 2, "scenario": dict(sc)}
+        for config in ("checked", "release"):
+            h = ctx.run(config, run_sc)
+            stats.inc("executions")
+            po = process_outcome(h)
+            if po:
+                res["violation"] = {"class": po[0], "msg": "[%s] host printer: %s" % (config, po[1])}
+                return res
+            got = [p_["events"] for p_ in h["programs"]]
+            if got != want:
+                res["violation"] = {"class": "host-printer", "msg": "[%s] a module's own global `print` after the host installed its printer again: expected %s, got %s" % (
+                    config, json.dumps(want), json.dumps(got)[:300])}
+                return res
+        return res
+
     def check(self, sc, ctx):
         if sc.get("default_loader"):
             return self.check_default_loader(sc, ctx)
+        if sc.get("host_printer"):
+            return self.check_host_printer(sc, ctx)
         stats = Stats()
         ir = sc["ir"]
         try:
@@ -755,7 +788,7 @@ try { import "no_such_module_in_the_working_directory_verif"; } catch e2 { print
 
     def shrink(self, sc):
         import copy
-        if sc.get("default_loader"):
+        if sc.get("default_loader") or sc.get("host_printer"):
             return
         ir = sc["ir"]
         for site in sorted(sc["faults"]):
